@@ -19,8 +19,12 @@ import itertools
 import json
 import os
 import re
+import sys
 
 import common
+
+sys.path.insert(0, os.path.dirname(os.path.abspath(__file__)))
+import c11shape as S  # noqa: E402
 
 P = "C11"
 REL = {
@@ -57,173 +61,105 @@ def src(key):
 
 
 # ---------------------------------------------------------------------------
-# a small Rust tokenizer (comments stripped, string literals kept as tokens)
+# strict reading of the Rust sources (lib/props/c11shape.py): the whole token
+# stream of every anchored item is matched against a template with named holes
 # ---------------------------------------------------------------------------
-TOK = re.compile(r'''
-    (?P<lc>//[^\n]*) | (?P<bc>/\*.*?\*/) |
-    (?P<raw>r\#"(?:.|\n)*?"\#) |
-    (?P<str>"(?:[^"\\]|\\.)*") |
-    (?P<chr>'(?:[^'\\]|\\.)') |
-    (?P<id>[A-Za-z_][A-Za-z0-9_]*) |
-    (?P<num>[0-9][0-9_]*) |
-    (?P<op>::|=>|==|!=|<=|>=|&&|\|\||->|[-+*/%<>=!&|^~?.,;:(){}\[\]\#@$'])
-    | (?P<ws>\s+)
-''', re.X | re.S)
-
-
-def tokens(text):
-    out, i = [], 0
-    while i < len(text):
-        m = TOK.match(text, i)
-        if not m:
-            out.append(("op", text[i]))
-            i += 1
-            continue
-        i = m.end()
-        k = m.lastgroup
-        if k in ("lc", "bc", "ws"):
-            continue
-        out.append((k, m.group(k)))
-    return out
-
-
-def unquote(s):
-    body = s[1:-1]
-    return re.sub(r'\\(.)', lambda m: {"n": "\n", "t": "\t", "\\": "\\", '"': '"'}.get(m.group(1), m.group(1)), body)
-
-
-def joined(toks):
-    """Token stream as one normalised string (single spaces between tokens)."""
-    return " ".join(t[1] for t in toks)
-
-
-def fn_body(text, name):
-    """Normalised token text of `fn name ... { body }`."""
-    toks = tokens(text)
-    for i in range(len(toks) - 1):
-        if toks[i] == ("id", "fn") and toks[i + 1] == ("id", name):
-            j = i
-            while toks[j][1] != "{":
-                j += 1
-            depth, k = 0, j
-            while True:
-                if toks[k][1] == "{":
-                    depth += 1
-                elif toks[k][1] == "}":
-                    depth -= 1
-                    if depth == 0:
-                        return joined(toks[j:k + 1])
-                k += 1
-    return ""
-
-
 CMP = {"<": "CLt", "<=": "CLe", ">": "CGt", ">=": "CGe", "==": "CEq", "!=": "CNe"}
+DEFTYPES = ("Function", "Template", "CustomTemplate")
+
+
+def _offset(env):
+    """`prime_size() - 1` -> -1 (the optional `<sign> <number>` group)."""
+    if not env["off"]:
+        return 0
+    o = env["off"][0]
+    return o["n"] * (-1 if o["s"] == "-" else 1)
 
 
 def parse_sources():
-    """Everything that is read (not executed) from the Rust sources."""
-    problems = []
+    """Everything that is read (not executed) from the Rust sources.  An item
+    that does not match its template completely leaves `unrecognised` markers in
+    every table entry read from it, and is listed in res["problems"]."""
+    problems, shape, env = [], [], {}
+    for key in ("bn254", "nonstrict", "lessthan", "constants"):
+        try:
+            r = S.read_file(key, src(key))
+        except Exception as e:  # noqa: BLE001 - never abort: an unreadable file is an unrecognised file
+            r = {"shape": [("%s::inventory" % key, False)] + [(a[3], False) for a in S.ANCHORS[key]], "env": {},
+                 "problems": ["%s: the strict reader failed on the current tree: %r" % (key, e)]}
+        shape += r["shape"]
+        env.update(r["env"])
+        problems += r["problems"]
     res = {}
     # --- bn254_specific_circuit.rs: const arrays + curve dispatch -----------
-    t = tokens(src("bn254"))
     arrays = []
-    i = 0
-    while i < len(t):
-        if t[i] == ("id", "const") and t[i + 1][0] == "id" and t[i + 2][1] == ":" and t[i + 3][1] == "[":
-            name = t[i + 1][1]
-            # [ & str ; N ] = [ "..." , ... ] ;
-            j = i + 4
-            decl = None
-            while t[j][1] != "]":
-                if t[j][0] == "num":
-                    decl = int(t[j][1].replace("_", ""))
-                j += 1
-            while t[j][1] != "[":
-                j += 1
-            j += 1
-            items = []
-            while t[j][1] != "]":
-                if t[j][0] == "str":
-                    items.append(unquote(t[j][1]))
-                elif t[j][1] != ",":
-                    problems.append("unexpected token %r in array %s" % (t[j][1], name))
-                j += 1
-            arrays.append((name, decl if decl is not None else -1, items))
-            i = j
-        i += 1
+    for label, ok in shape:
+        if label.startswith("bn254::const#") and ok:
+            e = env[label]
+            arrays.append((e["name"], e["decl"], [x["item"] for x in e["items"]] + [x["item"] for x in e["last"]]))
     res["arrays"] = arrays
     if len(arrays) != 2:
-        problems.append("expected two const arrays in bn254_specific_circuit.rs, found %d" % len(arrays))
-    body = fn_body(src("bn254"), "find_bn254_specific_circuits")
+        problems.append("expected two const arrays in bn254_specific_circuit.rs, recognised %d" % len(arrays))
     dispatch = []
-    for m in re.finditer(r"Curve :: (\w+) => (?:HashSet :: from \( (\w+) \)|\{ return ReportCollection :: new \( \) ; \})", body):
-        dispatch.append((m.group(1), m.group(2)))
+    for arm in env.get("bn254::find_bn254_specific_circuits", {}).get("arms", []):
+        if len(arm["arr"]) + len(arm["ret"]) != 1:
+            problems.append("curve dispatch of find_bn254_specific_circuits: arm %s not recognised" % arm["variant"])
+            continue
+        dispatch.append((arm["variant"], arm["arr"][0]["array"] if arm["arr"] else None))
     res["dispatch"] = dispatch
     if sorted(d[0] for d in dispatch) != sorted(VARIANTS):
         problems.append("curve dispatch of find_bn254_specific_circuits not recognised: %r" % (dispatch,))
-    vbody = fn_body(src("bn254"), "visit_statement")
-    res["bn254_exact_match"] = ("if problematic_templates . contains ( && component_name [ . . ] ) "
-                                "{ reports . push ( build_report ( component_meta , component_name ) ) ; }") in vbody
-    if not res["bn254_exact_match"]:
-        problems.append("membership test of the bn254 pass not recognised")
+    res["bn254_exact_match"] = "bn254::visit_statement" in env
     # --- nonstrict_binary_conversion.rs --------------------------------------
-    body = fn_body(src("nonstrict"), "find_nonstrict_binary_conversion")
-    m = re.search(r"if cfg \. constants \( \) \. curve \( \) (==|!=) & Curve :: (\w+) \{ return ReportCollection :: new \( \) ; \}", body)
-    if m:
-        res["nonstrict_curve"] = (CMP[m.group(1)], m.group(2))
+    e = env.get("nonstrict::find_nonstrict_binary_conversion")
+    if e:
+        res["nonstrict_curve"] = (CMP[e["curve_op"]], e["curve_variant"])
+        res["nonstrict_exempt"] = [e["exempt0"]] + [x["d"] for x in e["exempt"]]
+        off = _offset(e)
+        bad = [d for d in res["nonstrict_exempt"] if d not in DEFTYPES]
+        if bad:
+            # an identifier that is no variant of DefinitionType is a binding pattern: it matches everything
+            problems.append("matches!(cfg.definition_type(), ...) names %r, not variants of DefinitionType" % bad)
+            res["nonstrict_curve"] = ("CUnrecognised", "")
     else:
         res["nonstrict_curve"] = ("CUnrecognised", "")
-        problems.append("curve guard of the non-strict conversion pass not recognised")
-    m = re.search(r"let prime_size = BigInt :: from \( cfg \. constants \( \) \. prime_size \( \)(?: ([-+]) (\d+))? \) ;", body)
-    if m:
-        off = int(m.group(2) or 0) * (-1 if m.group(1) == "-" else 1)
-    else:
+        res["nonstrict_exempt"] = []
         off = None
-        problems.append("prime_size binding of the non-strict conversion pass not recognised")
-    m = re.search(r"if matches ! \( cfg \. definition_type \( \) , ([\w |]+) \) \{ return ReportCollection :: new \( \) ; \}", body)
-    res["nonstrict_exempt"] = [x.strip() for x in m.group(1).split("|")] if m else []
-    vbody = fn_body(src("nonstrict"), "visit_statement")
-    guards = []
-    for m in re.finditer(r'if component_name == ("(?:[^"\\]|\\.)*") && args \. len \( \) == (\d+) \{ let arg = & args \[ (\d+) \] ; '
-                         r'if let Some \( FieldElement \{ value \} \) = arg \. value \( \) \{ if value (<=|>=|==|!=|<|>) &? ?prime_size \{ return ; \} \} '
-                         r'reports \. push', vbody):
-        guards.append((unquote(m.group(1)), int(m.group(2)), int(m.group(3)), CMP[m.group(4)], off))
-    n_if = len(re.findall(r"if component_name ==", vbody))
-    if off is None or len(guards) != n_if or not guards:
-        problems.append("guards of the non-strict conversion pass not recognised (%d of %d)" % (len(guards), n_if))
-        guards = [(g[0], g[1], g[2], "CUnrecognised", 0) for g in guards] or [("Num2Bits", 1, 0, "CUnrecognised", 0)]
-    res["nonstrict_guards"] = guards
+    e = env.get("nonstrict::visit_statement")
+    if e and off is not None and e["guards"]:
+        res["nonstrict_guards"] = [(g["lit"], g["arity"], g["idx"], CMP[g["op"]], off) for g in e["guards"]]
+    else:
+        res["nonstrict_guards"] = [("Num2Bits", 1, 0, "CUnrecognised", 0)]
     # --- unconstrained_less_than.rs ------------------------------------------
-    body = fn_body(src("lessthan"), "find_unconstrained_less_than")
-    m = re.search(r"let max_value = BigInt :: from \( cfg \. constants \( \) \. prime_size \( \)(?: ([-+]) (\d+))? \) ;", body)
-    m2 = re.search(r"if let Some \( ValueReduction :: FieldElement \{ value \} \) = bit_size \. value \( \) \{ "
-                   r"if value (<=|>=|==|!=|<|>) &? ?max_value \{ is_positive = true ; break ; \} \}", body)
-    if m and m2:
-        res["lessthan_guard"] = (CMP[m2.group(1)], int(m.group(2) or 0) * (-1 if m.group(1) == "-" else 1))
+    e = env.get("lessthan::find_unconstrained_less_than")
+    helpers = [a[3] for a in S.ANCHORS["lessthan"] if a[3] not in ("lessthan::find_unconstrained_less_than",
+                                                                    "lessthan::update_components", "lessthan::update_inputs")]
+    res["lessthan_guard"] = (CMP[e["op"]], _offset(e)) if e and all(h in env for h in helpers) else ("CUnrecognised", 0)
+    ec, ei = env.get("lessthan::update_components"), env.get("lessthan::update_inputs")
+    if ec and ei and ec["rc_idx"] == 0:
+        res["lessthan_literals"] = ((ec["lt_name"], ec["lt_arity"]), (ec["rc_name"], ec["rc_arity"]), ei["rc_signal"], ei["lt_signal"])
     else:
-        res["lessthan_guard"] = ("CUnrecognised", 0)
-        problems.append("guard of the unconstrained-less-than pass not recognised")
-    cbody = fn_body(src("lessthan"), "update_components")
-    comp = re.findall(r'component_name == ("(?:[^"\\]|\\.)*") && args \. len \( \) == (\d+)', cbody)
-    ibody = fn_body(src("lessthan"), "update_inputs")
-    sigs = re.findall(r'signal_name != ("(?:[^"\\]|\\.)*")', ibody)
-    if len(comp) == 2 and len(sigs) == 2 and ibody.find("Component :: Num2Bits") < ibody.find("Component :: LessThan"):
-        res["lessthan_literals"] = ((unquote(comp[0][0]), int(comp[0][1])), (unquote(comp[1][0]), int(comp[1][1])),
-                                    unquote(sigs[0]), unquote(sigs[1]))
-    else:
+        if ec and ec["rc_idx"] != 0:
+            problems.append("update_components stores args[%d] as the bit size; the model reads args[0]" % ec["rc_idx"])
         res["lessthan_literals"] = (("", 0), ("", 0), "", "")
-        problems.append("template/signal literals of the unconstrained-less-than pass not recognised")
-    # --- constants.rs: the arms of FromStr -----------------------------------
-    body = fn_body(src("constants"), "from_str")
-    m = re.search(r"match & curve \. (\w+) \( \) \[ \. \. \] \{", body)
-    res["from_str_normaliser"] = m.group(1) if m else "unrecognised"
-    if not m:
-        problems.append("normalisation in Curve::from_str not recognised")
-    res["from_str_arms"] = [(unquote(a), v) for a, v in re.findall(r'("(?:[^"\\]|\\.)*") => Ok \( Curve :: (\w+) \)', body)]
-    enum = re.search(r"pub enum Curve \{(.*?)\}", joined(tokens(src("constants"))))
-    res["enum_variants"] = [v for v in re.findall(r"(\w+) ,", re.sub(r"# \[ \w+ \]", "", enum.group(1)))] if enum else []
+    # --- constants.rs ----------------------------------------------------------
+    e = env.get("constants::Curve::from_str")
+    res["from_str_normaliser"] = e["normaliser"] if e else "unrecognised"
+    res["from_str_arms"] = [(a["lit"], a["variant"]) for a in e["arms"]] if e else []
+    e = env.get("constants::Curve")
+    res["enum_variants"] = [v["variant"] for v in e["variants"]] if e else []
     if sorted(res["enum_variants"]) != sorted(VARIANTS):
         problems.append("enum Curve no longer has exactly the variants %s: %r" % (VARIANTS, res["enum_variants"]))
+    e = env.get("constants::Curve::prime")
+    lits = []
+    for arm in (e["arms"] if e else []):
+        ps = [x["p"] for x in arm["block"]] + [x["p"] for x in arm["plain"]]
+        if len(ps) == 1 and re.fullmatch(r"[0-9]+", ps[0]):
+            lits.append((arm["variant"], int(ps[0])))
+        else:
+            problems.append("Curve::prime: arm %s not recognised" % arm["variant"])
+    res["prime_literals"] = lits
+    res["shape"] = shape
     res["problems"] = problems
     return res
 
@@ -386,7 +322,8 @@ def safe(fn, fallback):
 
 PS_FALLBACK = {"arrays": [], "dispatch": [], "bn254_exact_match": False, "nonstrict_curve": ("CUnrecognised", ""),
                "nonstrict_exempt": [], "nonstrict_guards": [("Num2Bits", 1, 0, "CUnrecognised", 0)], "lessthan_guard": ("CUnrecognised", 0),
-               "lessthan_literals": (("", 0), ("", 0), "", ""), "from_str_normaliser": "unrecognised", "from_str_arms": [], "enum_variants": []}
+               "lessthan_literals": (("", 0), ("", 0), "", ""), "from_str_normaliser": "unrecognised", "from_str_arms": [], "enum_variants": [],
+               "prime_literals": [], "shape": [("extractor", False)]}
 PD_FALLBACK = {"rows": [], "columns": [], "bits": [], "default_bits": -1, "help_names": [], "default_curve": ""}
 
 
@@ -427,6 +364,14 @@ def gen(ctx):
     t += "Definition from_str_normaliser : string := %s.\n" % cstr(ps["from_str_normaliser"])
     t += "Definition from_str_arms : list (string * string) := %s.\n" % clist(
         ["(%s, %s)" % (cstr(l), cstr(v)) for l, v in ps["from_str_arms"]], per_line=1)
+    t += ("\n(* strict reading (lib/props/c11shape.py): every anchored item of the four sources - and the inventory of\n"
+          "   impl headers / functions / consts / types of each file - with `true` iff its WHOLE token stream matched\n"
+          "   the template (nothing left over: no extra statement, early return, conjunct, changed operator) *)\n")
+    t += "Definition source_shape : list (string * bool) := %s.\n\n" % clist(
+        ["(%s, %s)" % (cstr(l), "true" if ok else "false") for l, ok in ps["shape"]], per_line=1)
+    t += "(* the decimal literals of Curve::prime(), per variant *)\n"
+    t += "Definition source_prime_literals : list (string * Z) := %s.\n" % clist(
+        ["(%s, %d)" % (cstr(v), n) for v, n in ps["prime_literals"]], per_line=1)
     common.write_if_changed(os.path.join(g, "CurveTables.v"), t)
     # --- DocTable.v ---
     t = HEAD % ", ".join(REL[k] for k in ("doc", "cli"))
@@ -571,6 +516,30 @@ def sub0(lit, k):
     return "(VField (Field.sub 0 (Field.sub (%d) (%d) (prime c)) (prime c)))" % (lit, k)
 
 
+def sentinel_sizes():
+    """Large sizes far from the thresholds: every power of two up to 2^70, the
+    machine-integer boundaries (i32/u32/i64/u64/usize +- 1), 5000 and its
+    neighbours, a few round numbers, sizes just below/at/above each documented
+    prime.  A comparison that goes through a machine integer, a special-cased
+    value or a truncation shows here and not in the dense range 0..300."""
+    v = set(2 ** i for i in range(0, 71))
+    for b in (15, 16, 31, 32, 63, 64):
+        v |= {2 ** b - 1, 2 ** b + 1}
+    v |= {4999, 5000, 5001, 1000, 10 ** 6, 10 ** 9, 10 ** 18, 10 ** 19, 10 ** 20, 2 ** 64 + 254, 2 ** 64 + 5000,
+          2 ** 128, 2 ** 128 + 253, 2 ** 200, 2 ** 253, 2 ** 254 - 1}
+    for var in VARIANTS:
+        pr = DOC_PRIME[var]
+        b = pr.bit_length()
+        v |= {pr - 1, pr, pr + 1, pr + b - 2, pr + b - 1, pr + b, 2 * pr + 5, pr // 2, pr // 2 + 1}
+    return sorted(v)
+
+
+def big(v):
+    """A literal size as the tool sees it: reduced modulo the prime of the curve.
+    -> (model argument (raw Gallina), oracle size (function of the curve variant))"""
+    return "(VField (Z.modulo (%d) (prime c)))" % v, (lambda cv, v=v: v % DOC_PRIME[cv])
+
+
 def build_files(ctx, doc_rows):
     files = []
     uni = name_universe(doc_rows)
@@ -677,6 +646,36 @@ def build_files(ctx, doc_rows):
             v = "s%d" % i
             i += 1
             t.assign("component %s = %s;" % (v, text), "TComponent", v, [], tn, args)
+    # large sentinel sizes, as literals and through a local variable
+    for tn in ("Num2Bits", "Bits2Num"):
+        t = f.add(Tmpl("Sentinels" + tn))
+        for n in sentinel_sizes():
+            v = "s%d" % i
+            i += 1
+            arg, sz = big(n)
+            t.assign("component %s = %s(%d);" % (v, tn, n), "TComponent", v, [], tn, [arg], checks=[("nonstrict", tn, sz)])
+        for n in (5000, 2 ** 63, 2 ** 64 - 1, 2 ** 64, 2 ** 64 + 1, 2 ** 70):
+            v = "s%d" % i
+            i += 1
+            arg, sz = big(n)
+            t.raw("var b%d = %d + 1;" % (i, n - 1))
+            t.assign("component %s = %s(b%d);" % (v, tn, i), "TComponent", v, [], tn, [arg], checks=[("nonstrict", tn, sz)])
+    files.append(f)
+    # 6b. LessThan fed from Num2Bits(k) for the sentinel sizes k
+    f = CFile("lt_big")
+    sent = sentinel_sizes()
+    for part in range(0, len(sent), 60):
+        t = f.add(Tmpl("LTBig%d" % part))
+        ks = list(enumerate(sent[part:part + 60], start=part))
+        for j, k in ks:
+            t.raw("signal input u%d;" % j)
+        for j, k in ks:
+            arg, sz = big(k)
+            t.assign("component n%d = Num2Bits(%d);" % (j, k), "TComponent", "n%d" % j, [], "Num2Bits", [arg], checks=[("nonstrict", "Num2Bits", sz)])
+            t.constrain("n%d.in <== u%d;" % (j, j), "n%d" % j, ["in"], "u%d" % j)
+            t.assign("component l%d = LessThan(8);" % j, "TComponent", "l%d" % j, [], "LessThan", [8])
+            t.constrain("l%d.in[%d] <== u%d;" % (j, j % 2, j), "l%d" % j, ["in", j % 2], "u%d" % j)
+            t.lt_value("u%d" % j, [sz])
     files.append(f)
     # 7./8. LessThan fed from Num2Bits(k), k in 0..300
     for fi, (lo, hi) in enumerate(((0, 150), (151, 300))):
@@ -819,18 +818,20 @@ def build_files(ctx, doc_rows):
                     t.assign("component %s = %s();" % (v, n), "TComponent", v, [], n, [], checks=[("bn254", n)])
                 elif kind in ("n2b", "b2n"):
                     tn = "Num2Bits" if kind == "n2b" else "Bits2Num"
-                    n = rng.choice([rng.randrange(0, top + 1), rng.choice([252, 253, 254, 255, 256]), None])
-                    t.assign("component %s = %s(%s);" % (v, tn, "n" if n is None else n), "TComponent", v, [], tn, [n],
-                             checks=[("nonstrict", tn, n)])
+                    n = rng.choice([rng.randrange(0, top + 1), rng.choice([252, 253, 254, 255, 256]), None, rng.choice(sent)])
+                    arg, sz = (n, n) if n is None or n <= top else big(n)
+                    t.assign("component %s = %s(%s);" % (v, tn, "n" if n is None else n), "TComponent", v, [], tn, [arg],
+                             checks=[("nonstrict", tn, sz)])
                 else:
                     w = "r%d_%d" % (ti, rng.randrange(nsig))
                     if rng.random() < 0.5:
                         b = DOC_PRIME[rng.choice(VARIANTS)].bit_length()
-                        k = rng.choice([rng.randrange(0, top + 1), b - 3, b - 2, b - 1, b, None])
-                        t.assign("component %s = Num2Bits(%s);" % (v, "n" if k is None else k), "TComponent", v, [], "Num2Bits", [k],
-                                 checks=[("nonstrict", "Num2Bits", k)])
+                        k = rng.choice([rng.randrange(0, top + 1), b - 3, b - 2, b - 1, b, None, rng.choice(sent)])
+                        arg, sz = (k, k) if k is None or k <= top else big(k)
+                        t.assign("component %s = Num2Bits(%s);" % (v, "n" if k is None else k), "TComponent", v, [], "Num2Bits", [arg],
+                                 checks=[("nonstrict", "Num2Bits", sz)])
                         t.constrain("%s.in <== %s;" % (v, w), v, ["in"], w)
-                        checks_of.setdefault(w, {"lt": False, "sizes": []})["sizes"].append(k)
+                        checks_of.setdefault(w, {"lt": False, "sizes": []})["sizes"].append(sz)
                     else:
                         t.assign("component %s = LessThan(8);" % v, "TComponent", v, [], "LessThan", [8])
                         idx = rng.randrange(2)
